@@ -9,6 +9,7 @@ import (
 	"gocv/internal/spec"
 
 	"golang.org/x/tools/go/ssa"
+	"golang.org/x/tools/go/ssa/ssautil"
 )
 
 // ---- maps ------------------------------------------------------------------
@@ -394,6 +395,14 @@ func (f *fnState) modSets(fc *spec.FuncContract, ctx *specCtx) map[string]*modSe
 		}
 		return m
 	}
+	if fc.ModAll {
+		for _, key := range sortedKeys(f.cur.cells) {
+			if !strings.HasPrefix(key, "L:") && !strings.HasPrefix(key, "R:") && key != "G$nextref" {
+				get(key).any = true
+			}
+		}
+		return out
+	}
 	for _, it := range fc.Modifies {
 		f.modItem(it.E, ctx, get)
 	}
@@ -405,6 +414,15 @@ func (f *fnState) modItem(e spec.Expr, ctx *specCtx, get func(string) *modSet) {
 	case *spec.Call:
 		switch x.Fn {
 		case "any", "fresh":
+			if x.Fn == "fresh" && len(x.Args) == 0 {
+				// fresh(): objects of any type allocated by the callee
+				for _, key := range sortedKeys(f.cur.cells) {
+					if strings.HasPrefix(f.cellSort[key], "(Array Loc") {
+						get(key)
+					}
+				}
+				return
+			}
 			for _, a := range x.Args {
 				for _, key := range f.mapKeysOfTypeExpr(a, ctx) {
 					m := get(key)
@@ -655,8 +673,12 @@ func (f *fnState) havocModifies(fc *spec.FuncContract, ctx *specCtx, pre *env) {
 		}
 		var allowed []string
 		if isLoc {
+			// objects allocated by the callee, and the slots of maps it made (slot refs are negated map refs)
 			allowed = append(allowed, fmt.Sprintf("(>= (l-ref fk) %s)", nrOld))
-		} else if key == "G$tr" || key == "G$hw" {
+			if f.mapValKey(key) {
+				allowed = append(allowed, fmt.Sprintf("(<= (l-ref fk) (- %s))", nrOld))
+			}
+		} else if key == "G$tr" || key == "G$hw" || key == "M$dom" || key == "M$len" {
 			allowed = append(allowed, fmt.Sprintf("(>= fk %s)", nrOld))
 		}
 		for _, p := range ms.preds {
@@ -670,6 +692,9 @@ func (f *fnState) havocModifies(fc *spec.FuncContract, ctx *specCtx, pre *env) {
 // frameCheck: at a return, every heap cell agrees with its entry version
 // outside the modifies clause (and outside memory allocated in this call).
 func (f *fnState) frameCheck() {
+	if f.fc != nil && f.fc.ModAll {
+		return
+	}
 	ctx := &specCtx{f: f, env: f.entry, old: f.entry, binds: f.params, pkg: f.fn.Pkg.Pkg}
 	sets := f.modSets(f.fc, ctx)
 	for _, key := range sortedKeys(f.cur.cells) {
@@ -713,7 +738,10 @@ func (f *fnState) frameGoal(key string, sets map[string]*modSet, class, site str
 	var allowed []string
 	if isLoc {
 		allowed = append(allowed, fmt.Sprintf("(>= (l-ref %s) %s)", k, f.get(f.entry, "G$nextref", sInt).T))
-	} else if key == "G$tr" || key == "G$hw" {
+		if f.mapValKey(key) {
+			allowed = append(allowed, fmt.Sprintf("(<= (l-ref %s) (- %s))", k, f.get(f.entry, "G$nextref", sInt).T))
+		}
+	} else if key == "G$tr" || key == "G$hw" || key == "M$dom" || key == "M$len" {
 		// ghost state of buffers allocated in this call
 		allowed = append(allowed, fmt.Sprintf("(>= %s %s)", k, f.get(f.entry, "G$nextref", sInt).T))
 	}
@@ -724,7 +752,13 @@ func (f *fnState) frameGoal(key string, sets map[string]*modSet, class, site str
 	}
 	goal := or(append(allowed, fmt.Sprintf("(= (select %s %s) (select %s %s))", cur, k, old, k))...)
 	if class == "" {
-		f.assume(goal)
+		// the obligation is shown for an arbitrary location; it may be used for every location
+		ks := "Int"
+		if isLoc {
+			ks = "Loc"
+		}
+		qg := strings.ReplaceAll(goal, k, "fk")
+		f.assume(fmt.Sprintf("(forall ((fk %s)) (! %s :pattern ((select %s fk))))", ks, qg, cur))
 		return
 	}
 	f.oblige(class, "", site+": "+key, goal)
@@ -733,7 +767,7 @@ func (f *fnState) frameGoal(key string, sets map[string]*modSet, class, site str
 // frameInvariants carries the frame condition through loops with one skolem
 // location per heap cell.
 func (f *fnState) frameInvariants(l *loopInfo, class string) {
-	if f.fc == nil {
+	if f.fc == nil || f.fc.ModAll {
 		return
 	}
 	ctx := &specCtx{f: f, env: f.entry, old: f.entry, binds: f.params, pkg: f.fn.Pkg.Pkg}
@@ -1124,4 +1158,51 @@ func localAddr(v ssa.Value) bool {
 		}
 	}
 	return false
+}
+
+// mapValKey: can this heap cell hold (part of) the value of a map entry? The set is computed once from
+// the map types that occur in the functions of the loaded packages.
+func (f *fnState) mapValKey(key string) bool {
+	e := f.e
+	e.mapValOnce.Do(func() {
+		e.mapValKeys = map[string]bool{}
+		seen := map[types.Type]bool{}
+		var visit func(t types.Type)
+		visit = func(t types.Type) {
+			if t == nil || seen[t] {
+				return
+			}
+			seen[t] = true
+			switch u := t.Underlying().(type) {
+			case *types.Map:
+				for _, k := range f.leafKeys(u.Elem()) {
+					e.mapValKeys[k] = true
+				}
+				visit(u.Elem())
+			case *types.Struct:
+				for i := 0; i < u.NumFields(); i++ {
+					visit(u.Field(i).Type())
+				}
+			case *types.Slice:
+				visit(u.Elem())
+			case *types.Array:
+				visit(u.Elem())
+			case *types.Pointer:
+				visit(u.Elem())
+			}
+		}
+		for fn := range ssautil.AllFunctions(e.Prog) {
+			if fn.Pkg == nil || len(fn.Blocks) == 0 {
+				continue
+			}
+			for _, b := range fn.Blocks {
+				for _, ins := range b.Instrs {
+					if v, ok := ins.(ssa.Value); ok {
+						visit(v.Type())
+					}
+				}
+			}
+		}
+	})
+	return e.mapValKeys[key]
 }
